@@ -259,14 +259,14 @@ impl Check for C06 {
         let script = io::gen_rscript(&mut rng, bytes.len(), &[]);
         // "any parse": one case in four asks for some masters as Full items (judged on their flattening), and one
         // in eight is a streaming parse (closing off, temporary end-of-file reports at tag boundaries, the caller
-        // polling on and switching closing on once the source is exhausted)
+        // polling on)
         cfg.buffered = cases::gen_buffered(&mut rng, &spec, 25);
         let mut rc = ReadCase { spec, input: Arc::new(bytes), cfg, script, driver: Driver::UntilEnd { extra: 0 }, class };
         if rng.chance(1, 8) && !rc.input.is_empty() {
             let bounds = pause_bounds(&rc);
             if !bounds.is_empty() {
                 rc.cfg.eof_end = false;
-                rc.driver = Driver::StreamingThenClose;
+                rc.driver = Driver::Streaming { extra: 0 };
                 for _ in 0..rng.range(1, 4) {
                     let b = *rng.pick(&bounds);
                     for _ in 0..rng.range(1, 2) {
@@ -279,7 +279,7 @@ impl Check for C06 {
     }
 
     fn exec(&self, rc: &ReadCase, st: &mut Stats) -> Result<ExecOk, Fail> {
-        let streaming = matches!(rc.driver, Driver::StreamingThenClose);
+        let streaming = matches!(rc.driver, Driver::Streaming { .. });
         if rc.cfg.allow != 0 || (!rc.cfg.eof_end && !streaming) || (streaming && rc.cfg.eof_end) || (!streaming && !rc.script.pauses.is_empty()) {
             st.inc("out_of_scope");
             return Ok(ExecOk { nontrivial: false });
@@ -313,7 +313,8 @@ impl Check for C06 {
             return Ok(ExecOk { nontrivial: false });
         }
         let tags: Vec<TagV> = crate::val::flatten(&tr.ok_prefix().into_iter().map(|(t, _)| t).collect::<Vec<_>>());
-        let clean = matches!(tr.evs.last(), Some(Ev::None)) && tr.first_error().is_none();
+        // (a streaming parse has closing off: its end is not "the input ends" in the property's sense, nothing is closed)
+        let clean = !streaming && matches!(tr.evs.last(), Some(Ev::None)) && tr.first_error().is_none();
         if clean {
             st.inc("clean_ends");
         } else {
@@ -336,7 +337,7 @@ impl Check for C06 {
         c.shrink(true)
     }
     fn rule(&self) -> &'static str {
-        "One case = specification + bytes (valid documents mixing known- and unknown-size masters; the same with one structure-preserving fault placed via the layout: id substitution, size change, size→unknown marker, whole element moved or duplicated; byte-faulted; documents cut to start at an inner element) read in strict mode under a random delivery schedule; one case in four with some masters requested as Full items (judged on their flattening), one in eight as a streaming parse (closing off, temporary end-of-file reports at tag boundaries, closing switched on once the source is exhausted). The successful items are replayed against an independent nesting / declared-path (NFA) / extent checker. Non-trivial: at least two non-End items were emitted and checked. Distinct: FNV-1a fingerprint of bytes + schedule."
+        "One case = specification + bytes (valid documents mixing known- and unknown-size masters; the same with one structure-preserving fault placed via the layout: id substitution, size change, size→unknown marker, whole element moved or duplicated; byte-faulted; documents cut to start at an inner element) read in strict mode under a random delivery schedule; one case in four with some masters requested as Full items (judged on their flattening), one in eight as a streaming parse (closing off, temporary end-of-file reports at tag boundaries, the caller polling on; the end of such a parse closes nothing and is not judged). The successful items are replayed against an independent nesting / declared-path (NFA) / extent checker. Non-trivial: at least two non-End items were emitted and checked. Distinct: FNV-1a fingerprint of bytes + schedule."
     }
     fn assumptions(&self) -> Vec<&'static str> {
         vec![
